@@ -1,5 +1,5 @@
 \* what if the title were cleaned as the comment says (seeded C20-1)?  expected: Containment violated by a bare ".."
-CONSTANTS TitleClean = "stripdots" ExtractGuard = "reroot" LinkPolicy = "skip" DeleteValidates = TRUE MaxFull = 2 MaxCore = 2
+CONSTANTS TitleClean = "stripdots" ExtractGuard = "reroot" Whiteout = "none" LinkPolicy = "skip" DeleteValidates = TRUE MaxFull = 2 MaxCore = 2
   Eps = {"art"}
 SPECIFICATION Spec
 INVARIANTS Containment
